@@ -52,6 +52,7 @@ CHILD = "old(val(state.flow_states, child_flow_uid))"
 for _fn in ("_abort_flow", "_finish_flow"):
     contract(
         SM, _fn, prop="C06", block=("if child_flow_uid not in state.flow_states", "<end>"), loop_body=True,
+        must_reach=["_abort_flow(state, child_flow_state, matching_scores, True)"],
         vars={"state": "V", "child_flow_uid": "V", "matching_scores": "V"},
         ghost_lists=["aborted", "flags"],
         opaque_here={"_abort_flow": dict(log="aborted", log_arg=1, logs=[("flags", 3)], raises=[],
@@ -79,6 +80,7 @@ SAME_PARENT = ("old(truthy(flow_state.parent_uid) and val(state.flow_states, flo
 for _fn in ("_abort_flow", "_finish_flow"):
     contract(
         SM, _fn, prop="C06", block="if not deactivate_flow and flow_state.activated > 0 and (not flow_state.new_instance_started)",
+        must_reach=["_push_left_internal_event(state, event)", "event.arguments.update({'source_flow_instance_uid': flow_state.parent_uid})"],
         vars={"state": "V", "flow_state": "V", "matching_scores": "V", "deactivate_flow": "b"},
         ghost_lists=["pushed", "made"],
         requires=STATE + ONE_FS + ["has(flow_state, 'new_instance_started')", "has(flow_state, 'uid')", "is_str(flow_state.uid)",
